@@ -29,6 +29,19 @@ theorem fact_consumer_calls :
     Facts.C05.vciFindAndDeleteCalls.take 1 = (Kind.burn .preAuth).apiCalls ∧
     Facts.C05.vciFindAndDeleteCalls.drop 1 = ["flowStore.Get"] := by decide
 
+/-- every consumer looks its secret up / registers it under the secret itself — no request parameter that the
+    requester can vary (client_id, scope, …) takes part in the key, so the model's key (namespace, secret) is the
+    code's key.  The s2s nonce comes out of the signed presentation. -/
+theorem fact_store_keys :
+    Facts.C05.keysCode = ["oauthCodeStore.Delete(*request.Code)", "oauthCodeStore.GetAndDelete(*request.Code)"] ∧
+    Facts.C05.keysReqObjGet = ["authzRequestObjectStore.GetAndDelete(request.Id)"] ∧
+    Facts.C05.keysReqObjPost = ["authzRequestObjectStore.GetAndDelete(request.Id)"] ∧
+    Facts.C05.keysVpNonce = ["oauthNonceStore.Delete(nonce)", "oauthNonceStore.GetAndDelete(nonces[0])"] ∧
+    Facts.C05.keysRedirect.take 1 = ["userRedirectStore.GetAndDelete(token)"] ∧
+    Facts.C05.keysS2S = ["s2sNonceStore.PutIfAbsent(nonce)"] ∧
+    Facts.C05.s2sNonceSource = "extractNonce(presentation)" ∧
+    Facts.C05.keysJti = ["useNonceOnceStore.PutIfAbsent(dpopToken.Token.JwtID())"] := by decide
+
 /-- the one-time stores are used by exactly these functions: the four issuing functions `Put` (fresh random keys),
     every other access is one of the modelled consumers -/
 theorem fact_store_users :
